@@ -52,7 +52,7 @@ COND_FIELDS = ["init", "kw", "op", "opctx", "ex", "len", "nesting", "cannest", "
                "err", "id", "cat", "valid", "str", "bits", "loglevels"]
 
 COND_DEFAULT = dict(machine="cond", KwArgs=["k", "", "stringer", "nil", "int"],
-                    OpArgs=["Eq", "Ge", "op0", "user", "emptytext", "emptyctx", "nil"],
+                    OpArgs=["Eq", "Ge", "op0", "user", "userB", "eqB", "emptytext", "emptyctx", "nil"],
                     ExArgs=["nil", "s:v", "s:", "i:5", "S", "A", "C", "str"],
                     CFams=["set", "cond", "opts", "life"], COptFlags=["paren", "nspad", "ronly", "nnest"],
                     invariants=["CTypeOK", "CStepProps"], depth=2, walks=300, wlen=40, fields=COND_FIELDS)
@@ -458,13 +458,13 @@ C01_FIELDS = ["init", "len", "idx", "front", "back", "empty", "elems", "fifo", "
 def c01(work, v, tier):
     if tier == "quick":
         tables = [("core", dict(Caps=[0, 1, 2, 3], InitOpts=IDX4, MaxLen=3, depth=2, walks=400, wlen=40)),
-                  ("kinds", dict(Caps=[0, 2], Kinds=["AND", "OR", "NOT", "LIST", "BASIC"], MaxLen=2, Vals=["nil", "a"],
+                  ("kinds", dict(Caps=[0, 2], Kinds=["AND", "OR", "NOT", "LIST", "BASIC"], MaxLen=2, Vals=["nil", "a"], IdxMode="all",
                                  InitOpts=[[], ["neg", "fwd"]], depth=2, walks=100, wlen=30))]
-        traces = [("rand", dict(traces=150, len=60, fams=["list", "idxopts"]))]
+        traces = [("rand", dict(traces=150, len=60, fams=["list", "idxopts"], mode="all"))]
     else:
         tables = [("core", dict(Caps=[0, 1, 2, 3, 4], InitOpts=IDX4, MaxLen=4, depth=2, walks=3000, wlen=80)),
                   ("deep", dict(Caps=[0, 2], InitOpts=[[], ["neg", "fwd"]], MaxLen=3, Vals=["nil", "a"], PushLens=[1], depth=3, walks=500, wlen=60)),
-                  ("kinds", dict(Caps=[0, 2], Kinds=["AND", "OR", "NOT", "LIST", "BASIC"], MaxLen=3,
+                  ("kinds", dict(Caps=[0, 2], Kinds=["AND", "OR", "NOT", "LIST", "BASIC"], MaxLen=3, IdxMode="all",
                                  InitOpts=IDX4, depth=2, walks=1000, wlen=60))]
         traces = [("rand", dict(traces=1500, len=100, fams=["list", "idxopts"])),
                   ("long", dict(traces=200, len=400, fams=["list", "idxopts"], maxlen=40, nvals=100, salt=1))]
@@ -486,14 +486,17 @@ def c03(work, v, tier):
               ("xfer", dict(Caps=[1, 2, 3], Vals=["nil", "a"], MaxLen=3, Fams=["grow", "transfer"],
                             DstCaps=[0], DstOps=["push", "pop"], depth=2, walks=300, wlen=50)),
               ("cap-pol", dict(Caps=[1, 2], Vals=["nil", "a"], MaxLen=2, Fams=["grow", "policy", "marshal"], PushLens=[1, 2, 3], depth=2, walks=200, wlen=40)),
-              ("nocap", dict(Caps=[0], MaxLen=3, Vals=["nil", "a"], Kinds=["AND", "LIST", "BASIC"], Fams=["grow", "marshal"], depth=2, walks=50))]
+              ("nocap", dict(Caps=[0], MaxLen=3, Vals=["nil", "a"], Kinds=["AND", "LIST", "BASIC"], Fams=["grow", "marshal"], depth=2, walks=50)),
+              # refused values (Stacks under no-nesting) do not use up room: the earliest ADMISSIBLE values are kept
+              ("cap-nn", dict(Caps=[2, 3], Vals=["a", "b", "S"], MaxLen=3, InitOpts=[["nnest"], []], Fams=["grow"], PushLens=[2, 3, 4], depth=2, walks=100, wlen=30))]
     traces = [("rand", dict(traces=150 if q else 2000, len=80, fams=["list", "transfer", "marshal", "policy"], caps="1,2,3,4,5,0", maxlen=12, nvals=6))]
     if not q:
         tables = [("cap", dict(Caps=[1, 2, 3, 4], MaxLen=4, Fams=["list", "marshal"], depth=2, walks=3000, wlen=80)),
                   ("xfer", dict(Caps=[1, 2, 3], MaxLen=3, Vals=["nil", "a"], Fams=["grow", "transfer"],
                                 DstCaps=[0, 2], DstOps=["push", "pop"], depth=2, walks=3000, wlen=80)),
                   ("cap-pol", dict(Caps=[1, 2, 3], MaxLen=3, Fams=["grow", "policy", "marshal"], PushLens=[1, 2, 3], depth=2, walks=2000, wlen=60)),
-                  ("nocap", dict(Caps=[0], MaxLen=4, Kinds=["AND", "OR", "NOT", "LIST", "BASIC"], Fams=["grow", "marshal"], depth=3, walks=500))]
+                  ("nocap", dict(Caps=[0], MaxLen=4, Kinds=["AND", "OR", "NOT", "LIST", "BASIC"], Fams=["grow", "marshal"], depth=3, walks=500)),
+                  ("cap-nn", dict(Caps=[2, 3, 4], Vals=["a", "b", "S", "A"], MaxLen=4, InitOpts=[["nnest"], []], Fams=["grow"], PushLens=[2, 3, 4], depth=2, walks=2000, wlen=40))]
         traces.append(("boundary", dict(traces=1000, len=120, fams=["list", "transfer", "marshal"], caps="1,2,3", maxlen=6, salt=2)))
     return sm_check(work, v, "C03", tier, tables, traces, C03_FIELDS,
                     ["CapInv (Len <= cap in every reachable state of both handles)", "CapObs (Cap/Avail/IsFull agree with (cap, Len))",
@@ -649,7 +652,7 @@ def c15(work, v, tier):
     tables = [("xfer", dict(Caps=[0], Vals=["nil", "a"], MaxLen=3 if q else 4, Fams=["grow", "transfer"], PushLens=[1, 2],
                             DstCaps=[0, 1, 2, 3] if q else [0, 1, 2, 3, 4, 5], DstOps=["push", "pop", "ronly"], depth=2,
                             walks=300 if q else 20000, wlen=40)),
-              ("xfer-nn", dict(Caps=[0], Vals=["a", "S"], MaxLen=2, Fams=["grow", "transfer"], PushLens=[1],
+              ("xfer-nn", dict(Caps=[0], Vals=["a", "S"], MaxLen=3, Fams=["grow", "transfer"], PushLens=[1],
                                DstCaps=[0, 2], DstOps=["push", "nnest"], depth=2, walks=100, wlen=30))]
     traces = [("rand", dict(traces=200 if q else 2000, len=60, fams=["list", "transfer"], caps="0,1,2,3,5,8", nest=True, nvals=6))]
     return sm_check(work, v, "C15", tier, tables, traces, C15_FIELDS,
@@ -833,7 +836,7 @@ def c12(work, v, tier):
     q = tier == "quick"
     tables = [("nest-alias", dict(Caps=[0], Kinds=["AND", "LIST"], Vals=["a", "S", "A", "P"], MaxLen=2, InitOpts=[[], ["nnest"]], Fams=["grow", "opts"],
                                   OptFlags=["nnest"], PushLens=[1, 2], depth=2, walks=200 if q else 10000, wlen=30, fields=C13_FIELDS)),
-              ("xfer-forms", dict(Caps=[0], Vals=["nil", "a"], MaxLen=2, Fams=["grow", "transfer"], PushLens=[1], DstCaps=[0, 2], DstOps=["push"],
+              ("xfer-forms", dict(Caps=[0], Vals=["a", "S", "A", "P"], MaxLen=3, Fams=["grow", "transfer"], PushLens=[1], DstCaps=[0, 2], DstOps=["push", "nnest"],
                                   depth=2, walks=200 if q else 10000, wlen=30, fields=C15_FIELDS)),
               ("cond-alias", dict(machine="cond", KwArgs=["k"], OpArgs=["Eq"], ExArgs=["nil", "s:v", "S", "A", "P", "C"], CFams=["set", "opts"],
                                   COptFlags=["nnest"], depth=3, walks=200 if q else 10000))]
@@ -978,7 +981,39 @@ def c10(work, v, tier):
                         ['  OUT = "%s"' % schedf, "INVARIANTS Linearizable CapRespected OnlyUserValues Emit", "CHECK_DEADLOCK FALSE", ""])
         res = lib.tlc(work, "conc_" + name, "Concurrent", cfg, workers=1, timeout=3000)
         histf = work.path("hist_%s.ndjson" % name)
-        rc, out, wall = lib.run([harness, "gated", "-sched", schedf, "-out", histf, "-limit", str(limit), "-seed", str(lib.seed())], timeout=3000)
+        gcmd = [harness, "gated", "-sched", schedf, "-out", histf, "-limit", str(limit), "-seed", str(lib.seed())]
+        rc, out, wall = lib.run(gcmd, timeout=3000)
+        if rc != 0 and "fatal error:" in out and "go-stackage." in out[out.find("fatal error:"):]:
+            # the Go runtime killed the driver from inside the package (e.g. sync: unlock of unlocked mutex): gated runs are
+            # deterministic, so narrow it down to ONE schedule by bisection and report that schedule
+            nsched = sum(1 for _ in open(schedf))
+            lo, hi = 0, (min(limit, nsched) if limit else nsched)
+            def dies(a, n):
+                r, o, _ = lib.run(gcmd + ["-first", str(a), "-count", str(n)], timeout=3000)
+                return r != 0 and "fatal error:" in o
+            if not dies(lo, hi - lo):
+                raise Infra("gated execution died with a fatal runtime error that did not recur: " + out[out.find("fatal error:"):][:600])
+            while hi - lo > 1:
+                mid = (lo + hi) // 2
+                if dies(lo, mid - lo):
+                    hi = mid
+                else:
+                    lo = mid
+            # with -count 1 the driver prints the schedule it is about to execute
+            r1, o1, _ = lib.run(gcmd + ["-first", str(lo), "-count", "1"], timeout=600)
+            rec_line = None
+            for ln in o1.splitlines():
+                if ln.startswith("SELECTED "):
+                    rec_line = json.loads(ln[len("SELECTED "):])
+            if rec_line is None:
+                raise Infra("fatal runtime error in the gated run could not be pinned to one schedule")
+            ftxt = out[out.find("fatal error:"):]
+            rec = dict(property="C10", kind="fatalsched", schedule=rec_line,
+                       detail=["forcing schedule %s of %s kills the process: %s" % (rec_line.get("sched"), json.dumps(rec_line.get("prog"))[:300], ftxt.splitlines()[0]),
+                               " | ".join(l.strip() for l in ftxt.splitlines()[1:14] if "go-stackage." in l)[:500]],
+                       **{"class": "C10/gated/fatal"})
+            triage(v, findings, "C10", harness, rec, None)
+            continue
         if rc != 0:
             raise Infra("gated execution failed: " + out[-2000:])
         g = json.loads(out.strip().splitlines()[-1])
